@@ -165,3 +165,20 @@ pub fn tagged<T>(tag: &str, what: &str, f: impl FnOnce() -> T) -> T {
     SLOWEST_US.fetch_max(t0.elapsed().as_micros() as u64, Ordering::Relaxed);
     r
 }
+
+/// RAII form of `case`: the case is in flight until the guard is dropped
+pub struct Guard(usize, Instant);
+
+pub fn enter(what: &str) -> Guard {
+    let i = MY.with(|m| *m);
+    let t0 = Instant::now();
+    *table()[i].cur.lock().unwrap() = Some((t0, what.to_string(), clock_ns(libc::CLOCK_THREAD_CPUTIME_ID), unsafe { libc::pthread_self() }));
+    Guard(i, t0)
+}
+
+impl Drop for Guard {
+    fn drop(&mut self) {
+        *table()[self.0].cur.lock().unwrap() = None;
+        SLOWEST_US.fetch_max(self.1.elapsed().as_micros() as u64, Ordering::Relaxed);
+    }
+}
